@@ -41,7 +41,7 @@ Proof.
   - discriminate.
 Qed.
 
-Lemma het_agree : forall r, counts_as_het RR (row_of RR r) = spec_het (r_call r).
+Lemma het_agree : forall r, counts_as_het RR (row_of r) = spec_het (r_call r).
 Proof.
   intros r. unfold counts_as_het, row_of, spec_het, genotype_code. cbn [t_gt skip_missing_gt repaired_rules andb].
   destruct (c_gt (r_call r)) as [l|]. 2: reflexivity.
@@ -53,10 +53,11 @@ Qed.
 Lemma forallb_map_some : forall a r, forallb (key_eqb (Some a)) (map Some r) = forallb (Z.eqb a) r.
 Proof. induction r as [|b r IH]; cbn [map forallb key_eqb]. reflexivity. rewrite IH. reflexivity. Qed.
 
-Lemma phase_agree : forall c, spec_het c = true ->
-  extract_phase RR c = match spec_phase_set c with Some i => Some (Some i) | None => None end.
+Lemma phase_agree : forall r, spec_het (r_call r) = true ->
+  eff_phase RR (row_of r) = match spec_phase_set (r_call r) with Some i => Some (Some i) | None => None end.
 Proof.
-  intros c H. unfold extract_phase, spec_phase_set. destruct (c_hp c) as [b|]. reflexivity.
+  intros r H. unfold eff_phase, row_of. cbn [t_phase]. unfold extract_phase, spec_phase_set.
+  set (c := r_call r) in *. destruct (c_hp c) as [b|]. reflexivity.
   assert (Hraw : raw_het (c_gt c) = true).
   { unfold spec_het in H. destruct (c_gt c) as [l|]. 2: discriminate.
     destruct (all_some l) as [g|] eqn:E. 2: discriminate.
@@ -76,20 +77,20 @@ Definition ents (hs : list vrec) : list (key * var) := flat_map ent hs.
 Lemma ents_cons : forall r hs, ents (r :: hs) = ent r ++ ents hs.
 Proof. reflexivity. Qed.
 
-Lemma hrows_hets : forall cs, hrows RR (map (row_of RR) cs) = map (row_of RR) (hets cs).
+Lemma hrows_hets : forall cs, hrows RR (map row_of cs) = map row_of (hets cs).
 Proof.
   intros cs. unfold hrows, hets. rewrite filter_map_comm. f_equal. apply filter_ext_in'.
   intros r _. apply het_agree.
 Qed.
 
-Lemma entries_ents : forall cs, entries RR (map (row_of RR) cs) = ents (hets cs).
+Lemma entries_ents : forall cs, entries RR (map row_of cs) = ents (hets cs).
 Proof.
   intros cs. unfold entries. rewrite hrows_hets.
   assert (H : forall hs, (forall r, In r hs -> spec_het (r_call r) = true) ->
-                         flat_map entry_of (map (row_of RR) hs) = ents hs).
+                         flat_map (entry_of RR) (map row_of hs) = ents hs).
   { induction hs as [|r hs IH]; intros Hh. reflexivity.
     cbn [map flat_map ents]. rewrite IH. 2:{ intros r' Hr'. apply Hh. right; exact Hr'. }
-    f_equal. unfold entry_of, row_of, ent. cbn [t_phase t_pos t_snv].
+    f_equal. unfold entry_of, ent.
     rewrite (phase_agree _ (Hh r (or_introl eq_refl))). destruct (spec_phase_set (r_call r)); reflexivity. }
   apply H. intros r Hr. unfold hets in Hr. apply filter_In in Hr. tauto.
 Qed.
@@ -349,12 +350,12 @@ Qed.
 (* ---------------------------------------------------------------------------------------------- *)
 Theorem chrom_spec_repaired : forall o recs chrlen cid, sorted_recs o recs ->
   exists cr,
-    read_rows RR o None recs = Some (map (row_of RR) (counted o recs)) /\
-    process_rows RR chrlen cid (map (row_of RR) (counted o recs)) = Some cr /\
+    read_rows o None recs = Some (map row_of (counted o recs)) /\
+    process_rows RR chrlen cid (map row_of (counted o recs)) = Some cr /\
     l1_row o recs (cr_row cr) (cr_blocklist cr) = true.
 Proof.
   intros o recs chrlen cid Hsorted.
-  set (cs := counted o recs). set (rows := map (row_of RR) cs). set (hs := hets cs).
+  set (cs := counted o recs). set (rows := map row_of cs). set (hs := hets cs).
   assert (Hent : entries RR rows = ents hs) by apply entries_ents.
   assert (Hmix : mixed_keys (dict_build (entries RR rows) []) = false) by (rewrite Hent; apply not_mixed).
   destruct (process_rows_spec RR chrlen cid rows Hmix) as (pieces & Eno & Hgood & Hchain & Hsum & Hsz & Hlens & Eproc).
@@ -365,7 +366,7 @@ Proof.
   assert (Hd : dinv d l) by apply dict_build_dinv.
   assert (Hblocks : ps_blocks st = map snd d) by (unfold st, chrom_stats; cbn [ps_blocks]; rewrite Hent; reflexivity).
   assert (Hsizes : st_sizes st = map zlen (filter bigb (map snd d))) by (unfold st_sizes; rewrite Hblocks; reflexivity).
-  assert (Hhrows : hrows RR rows = map (row_of RR) hs) by apply hrows_hets.
+  assert (Hhrows : hrows RR rows = map row_of hs) by apply hrows_hets.
   destruct (rowfun_fields chrlen st) as (F1 & F2 & F3 & F4 & F5 & F6 & F7 & F8 & F9 & F10).
   (* the sizes, up to permutation, are the sizes of the sets in id order *)
   set (ids := distinct_ids hs).
@@ -382,7 +383,7 @@ Proof.
     cbn [s_variants s_het s_hetsnv s_phased s_unphased s_singletons s_blocks s_vmin s_vmax s_phsnv].
     rewrite F1, F2, F3, F4, F5, F7, F8, F9, F10, rowfun_phsnv.
     assert (Hv : ps_variants st = Z.of_nat (length rows)) by reflexivity.
-    assert (Hu : ps_unphased st = count phase_none (hrows RR rows)) by reflexivity.
+    assert (Hu : ps_unphased st = count (phase_none RR) (hrows RR rows)) by reflexivity.
     assert (Hh : ps_het st = Z.of_nat (length (hrows RR rows))) by reflexivity.
     assert (Hhsn : ps_hetsnv st = count t_snv (hrows RR rows)) by reflexivity.
     rewrite Hv, Hu, Hh, Hhsn, Hhrows.
@@ -392,7 +393,7 @@ Proof.
     + rewrite count_map. reflexivity.
     + rewrite Hsizes, (dict_phased_entries d l Hd). f_equal. unfold l. symmetry.
       apply (count_transfer (Nat.ltb 1) hs eq_refl hs).
-    + rewrite count_map. apply count_ext_in. intros r Hr. unfold phase_none, row_of. cbn [t_phase].
+    + rewrite count_map. apply count_ext_in. intros r Hr. unfold phase_none.
       rewrite phase_agree. destruct (spec_phase_set (r_call r)); reflexivity.
       unfold hs, hets in Hr. apply filter_In in Hr. tauto.
     + unfold st_singles. rewrite Hblocks, (dict_singles_entries d l Hd). unfold count. f_equal. unfold l. symmetry.
